@@ -18,7 +18,7 @@ open Lean XsVerif.Driver XsVerif.Derivation
       | {"op":"blocked","t":k,"e":k}                                           -> {"r":true|false|null,"rr":..}
       | {"op":"inst","t":k,"u":k}                                              -> {"r":..,"rr":..}
       | {"op":"substx","head":k,"m":k, + the fields of "elem" but "e"/"declTy"} -> {"errs":[kind..]|null}
-      | {"op":"altT","attrs":[[k,v]..],"alts":[[test|null,ty]..],"dflt":k}     -> {"ty":k}
+      | {"op":"altT","attrs":[[k,v]..],"inh":[[k,v]..]?,"alts":[[test|null,ty]..],"dflt":k} -> {"ty":k}
             test = ["eq",a,v]|["ne",a,v]|["has",a]|["not",t]|["and",l,r]|["or",l,r]
       | {"op":"elem","e":k,"declTy":k,"xsi":null|"unknown"|k,"nil":null|str,"text":b,"children":b,"variant":k}
                                                                                -> {"errs":[kind..]}
@@ -158,7 +158,15 @@ def query (qk : Quirks) (h : Hier) (es : List EDecl) (cs : CSem) (fuel : Nat) (q
         let t ← match p[0] with | .null => pure none | v => some <$> parseTest 64 v
         return ((t, ← p[1].getNat?) : Option Test × Nat)
       else throw "altT"
-    return Json.mkObj [("ty", selectAltT attrs alts (← getNat q "dflt"))]
+    let inh ← match q.getObjVal? "inh" with
+      | .ok (.arr a) => a.toList.mapM fun x => do
+          let p ← x.getArr?
+          if hsz : p.size = 2 then return ((← p[0].getStr?, ← p[1].getStr?) : String × String) else throw "inh"
+      | _ => pure []
+    -- no inherited attributes: the own-attribute loop (selectAltT); otherwise selectAltI
+    let ty := if inh.isEmpty then selectAltT attrs alts (← getNat q "dflt")
+              else selectAltI attrs inh alts (← getNat q "dflt")
+    return Json.mkObj [("ty", ty)]
   | "alt" =>
     let alts ← (← getArr q "alts").toList.mapM fun a => do
       let p ← a.getArr?
